@@ -163,7 +163,10 @@ def _copy_body(f0: int, f1: int, lib: int, iv: int, allf: int, stale: int, missi
         if srck != 0:
             # URL-sourced and source-less dependencies copy nothing
             return not os.path.exists(target) if stale == 0 else _tree(target) == {"stale.txt": "old", names[0]: "old content"}
+        base = ((libdir + "/") if libdir else "") + "dep" + ("-1.0" if inc else "")
         for u, n in zip(urls, names):
+            if u != base + "/" + urllib.parse.quote(n):      # prefix/name[-version]/percent-encoded relative path
+                return False
             if u not in html and u.replace("&", "&amp;").replace("'", "&apos;") not in html:
                 return False
             local = os.path.normpath(os.path.join(os.path.dirname(file), urllib.parse.unquote(u)))
